@@ -38,6 +38,16 @@ def eval_call(E, node, st):
                     return [Out("ok", s, v)]
                 return [Out("ok", s, V(Kind("seq", v.kind[1]), E.list_seq(s, v)))]
             return E.bind(E.eval(node.args[0], st), ki)
+        if f.id == "subset" and E.spec_mode:
+            # subset(xs, ys): every element of the list / sequence xs occurs in ys (by value, not by position)
+            def ksub(s, vs):
+                a, b = vs
+                sa = E.list_seq(s, a) if a.kind.tag == "list" else a.t
+                sb = E.list_seq(s, b) if b.kind.tag == "list" else b.t
+                E.uses_quantifiers = True
+                x = z3.Const(fresh_name("subx"), sa.sort().basis())
+                return [Out("ok", s, vbool(z3.ForAll([x], z3.Implies(z3.Contains(sa, z3.Unit(x)), z3.Contains(sb, z3.Unit(x))))))]
+            return E.eval_seq(list(node.args), st, ksub)
         if f.id == "first" and E.spec_mode:
             # first(xs, n): the first n elements of a list / sequence (0 <= n <= len(xs) is the caller's business)
             def kf(s, vs):
@@ -890,7 +900,7 @@ def apply_contract(E, st, c, selfv, args, kwargs):
             if not in_force(r, E.prop):
                 continue
             g = E.spec_bool(r, st, env, st)
-            ob = E.obl("%s.%s.pre@%s.%d" % (E.prop, top.qual.partition(":")[2], c.name, i), "pre", text=r)
+            ob = E.obl("%s.%s.pre@%s.%d" % (E.prop, getattr(top, "display", None) or top.qual.partition(":")[2], c.name, i), "pre", text=r)
             ob.add(st.pc, g, note="call of %s" % c.qual)
         # termination inside a recursion group
         tc = top.contract
